@@ -106,6 +106,12 @@ def main():
                                   "demo.py with and without the change",
                                   "VERIF_REPO=<worktree> ./check %s quick from a private copy of /verif" % " / ".join([pid] + extra),
                                   "git checkout -- . in the worktree"]})
+    try:
+        fp = json.load(open(os.path.join(VERIF, "seeded", "first_pass.json"))).get("%s-%s" % (pid, k))
+        if fp:
+            meta["history"] = "round %s, first pass (before the streams were strengthened for this round): %s" % (fp["round"], fp["first_pass"])
+    except Exception:
+        pass
     json.dump(meta, open(os.path.join(dst, "meta.json"), "w"), indent=1)
     caught = {c: v["exit"] == 1 and any(l.startswith("VIOLATION") for l in v["lines"]) for c, v in res.get("checks", {}).items()}
     print(json.dumps({"id": "%s-%s" % (pid, k),
